@@ -480,6 +480,18 @@ def gen_banesync(repo):
     if 'processes' not in kw or src(kw.get('maxtasksperchild', ast.Constant(0))) != '1':
         raise TranslateError("filter_mc_sharemem: Pool(processes=..., maxtasksperchild=1)")
     processes = trz.expr(kw['processes'])
+    # the try around map_async(...).get(): is the pool terminated when a stripe fails?
+    inner = [n for n in ast.walk(fm) if isinstance(n, ast.Try) and any(isinstance(b, ast.Expr) and 'map_async' in src(b) for b in n.body)]
+    if len(inner) != 1:
+        raise TranslateError("filter_mc_sharemem: try around pool.map_async(...).get()")
+    term = False
+    for hnd in inner[0].handlers:
+        if hnd.type is not None and src(hnd.type) == 'Exception':
+            calls = [src(x) for x in hnd.body]
+            if 'pool.terminate()' in calls and isinstance(hnd.body[-1], ast.Raise) and hnd.body[-1].exc is None:
+                term = True
+            else:
+                raise TranslateError("filter_mc_sharemem: unexpected `except Exception` handler around the pool")
     # layout
     env = {'img_y': 'rows', 'width_y': 'w'}
     ymins = src(one_assign_in(fm, 'ymins', 0))
@@ -507,6 +519,8 @@ Definition wait_before_mask : bool := {b(wait2)}.
 Definition reset_after_wait : bool := {b(reset1 or reset2)}.
 Definition abort_on_error : bool := {b(aborts)}.
 Definition unlink_in_finally : bool := {b(unl)}.
+(* a failing stripe makes the parent terminate the pool before re-raising (no worker is left to block interpreter exit) *)
+Definition terminate_on_failure : bool := {b(term)}.
 Definition parties (cores n : Z) : Z := {parties}.
 Definition pool_size (cores n : Z) : Z := {processes}.
 (* rows of the image a stripe reads: its own rows plus half a box on either side *)
